@@ -952,6 +952,10 @@ static int ec_glob(char *loc, char *cmd, char *arg, char *txt)
 	char *pat;
 	char *s = arg;
 	int i;
+	if (xgdep >= 7) {		/* ln_glob[] holds one bit per nesting level */
+		ex_show("global nesting too deep");
+		return 1;
+	}
 	if (!loc[0] && !xgdep)
 		strcpy(loc, "%");
 	if (ex_region(loc, &beg, &end) || ex_zero(loc, beg, end))
